@@ -28,6 +28,10 @@ def compare(ck, p, data, real, model, spec, cfg_every=True, label='pel', extra=N
         elif real[2] != spec[1]:
             ck.fail('decoded document differs from what the property prescribes', rp | {'difference': first_diff(real[2], spec[1])}, label + '_doc')
     # ---- correspondence
+    if real[:2] == ('error', 'Hang'):
+        # the model is total (it always answers); a call of the real decoder that does not return is never in agreement
+        ck.disagree('the real decoder did not terminate (%s); the model answers %s' % (real[2], model[0]), rp | {'impl': real[:3], 'model': model[:2]})
+        return
     if model[0] == 'unsupported':
         ck.skip('model: unsupported (float in user JSON, or a registry construct outside the modelled subset)')
         return
